@@ -7,7 +7,8 @@
 (* PANIC / HANG / ALLOC events are not explainable.                        *)
 EXTENDS WSDialMC
 
-CONSTANTS Targets, SLForms, Codes, HBForms, MaxDev
+CONSTANTS Targets, SLForms, Codes, HBForms, MaxDev,
+          Decls, DeclCodes   \* declared body lengths (decimal strings) and the status codes they are combined with
 
 B2I(b) == IF b THEN 1 ELSE 0
 Dev(sl, code, hb) == B2I(sl # "normal") + B2I(code \notin {"101", "200"}) + B2I(hb # "wellformed")
@@ -15,11 +16,21 @@ Dev(sl, code, hb) == B2I(sl # "normal") + B2I(code \notin {"101", "200"}) + B2I(
 Raws == { [mode |-> "raw", sl |-> t[1], code |-> t[2], hb |-> t[3]] :
             t \in { x \in SLForms \X Codes \X HBForms : Dev(x[1], x[2], x[3]) <= MaxDev } }
 
+(* Replies that DECLARE a body length in Content-Length and deliver none / three / all (small lengths only) of     *)
+(* the bytes before the connection ends, for refusing statuses and for a 101 whose Accept value is wrong: what    *)
+(* Dial allocates must be in proportion to the bytes received, never to the number the peer declares.             *)
+SmallDecls == {"0", "1", "1023", "1024", "1025"}
+DeclForms ==
+  { pre \o "cld/" \o dc \o "/" \o sn : pre \in {"", "badacc_"}, dc \in Decls, sn \in {"0", "3"} }
+  \cup { pre \o "cld/" \o dc \o "/all" : pre \in {"", "badacc_"}, dc \in Decls \cap SmallDecls }
+DeclRaws == { [mode |-> "raw", sl |-> "normal", code |-> cd, hb |-> f] : cd \in DeclCodes, f \in DeclForms }
+             \cup { [mode |-> "raw", sl |-> "normal", code |-> cd, hb |-> "chunked_big"] : cd \in DeclCodes }
+
 MCCfgs == { [BaseCfg EXCEPT !.proxy = p] : p \in Targets }   \* "none": the reply is the server's; else the proxy's
 
 MCDials(c) ==
   IF c.proxy = "none"
-  THEN { << Dial(u, << >>, r, OkCReply, "valid", NoFault, FALSE) >> : u \in {PlainURL}, r \in Raws }
+  THEN { << Dial(u, << >>, r, OkCReply, "valid", NoFault, FALSE) >> : u \in {PlainURL}, r \in Raws \cup DeclRaws }
   ELSE { << Dial(u, << >>, GoodReply, [mode |-> "raw", sl |-> r.sl, code |-> r.code, hb |-> r.hb], "valid", NoFault, FALSE) >> :
-           u \in {PlainURL}, r \in Raws }
+           u \in {PlainURL}, r \in Raws \cup DeclRaws }
 =============================================================================
